@@ -154,6 +154,10 @@ type c12ENI struct {
 	V4    []string `json:"v4"` // slot i = (V4[i], V6[i])
 	V6    []string `json:"v6,omitempty"`
 	Busy  []bool   `json:"busy"` // slot held by another pod
+	// crd worlds: slot still recorded (Valid) for an earlier incarnation of the SAME
+	// namespace/name with another UID — the pod was recreated and the controller has not
+	// reclaimed the old record yet. The daemon must pick the record of the current UID.
+	Stale []bool `json:"stale,omitempty"`
 	ERdma bool     `json:"erdma,omitempty"`
 }
 
@@ -494,6 +498,16 @@ func c12GenWorld(t *rapid.T) c12World {
 			s := rapid.IntRange(0, len(w.ENIs[k].Busy)-1).Draw(t, "bind_slot")
 			w.Bind = [2]int{k, s}
 			w.ENIs[k].Busy[s] = false
+			if rapid.IntRange(0, 2).Draw(t, "with_stale") > 0 {
+				for i := range w.ENIs {
+					w.ENIs[i].Stale = make([]bool, len(w.ENIs[i].Busy))
+					for j := range w.ENIs[i].Stale {
+						if [2]int{i, j} != w.Bind {
+							w.ENIs[i].Stale[j] = rapid.IntRange(0, 2).Draw(t, "stale") == 2
+						}
+					}
+				}
+			}
 		}
 	case c12KLocalEO:
 		for i := 0; i < nENI; i++ {
@@ -704,6 +718,9 @@ func c12NodeCR(w *c12World) *networkv1beta1.Node {
 			owner, uid := "", ""
 			if e.Busy[s] {
 				owner, uid = fmt.Sprintf("other/p-%d-%d", i, s), fmt.Sprintf("uid-o-%d-%d", i, s)
+			}
+			if w.Kind == c12KCRD && s < len(e.Stale) && e.Stale[s] {
+				owner, uid = podID, fmt.Sprintf("%s-old-%d-%d", w.Pod.UID, i, s)
 			}
 			if w.Kind == c12KCRD && w.Bind == [2]int{i, s} {
 				owner, uid = podID, w.Pod.UID
@@ -1243,7 +1260,29 @@ func c12RunWorld(c *vt.Ctx, w c12World) {
 	conf := c12CNIConf(c, &w.CNI)
 	args := c12Args(&w.CNI)
 	rounds := 1
-	if w.Repeat {
+	nStale, staleENIs := 0, 0
+	for i := range w.ENIs {
+		k := 0
+		for _, st := range w.ENIs[i].Stale {
+			if st {
+				k++
+			}
+		}
+		nStale += k
+		if k > 0 && i != w.Bind[0] {
+			staleENIs++
+		}
+	}
+	if w.Kind == c12KCRD && nStale > 0 {
+		// the daemon ranges over maps of ENIs and of address records: repeat the request
+		// so that several iteration orders are seen in one world
+		rounds = 6
+		c.Labelf("crd-stale-records:%d", min(nStale, 3))
+		if staleENIs > 0 {
+			c.Label("crd-stale-on-other-eni")
+		}
+		c.NonTrivial()
+	} else if w.Repeat {
 		rounds = 2
 		c.Label("repeated-add")
 	}
